@@ -1,4 +1,4 @@
-import AlgoVerif.Model.C19
+import AlgoVerif.Model.C19Run
 /-!
 Line-protocol component for C19.
 
@@ -74,6 +74,15 @@ def dump (i : Input) : String :=
   s!"err={showErr i.err} off={i.offset} line={i.line} col={i.column} ncol={i.nextColumn} " ++
   s!"rs={showNatList i.runeSizes.reverse} lc={showInts i.lastColumns.reverse}"
 
+def showOut : Out → String
+  | .rune r => s!"ok r {r}"
+  | .err .eof => "ok err eof"
+  | .err .other => "ok err other"
+  | .invalid p => s!"ok err utf8 {showPos p}"
+  | .unit => "ok"
+  | .lexeme bytes p => s!"ok x{showHex bytes} {showPos p}"
+  | .skipped p => s!"ok {showPos p}"
+
 inductive St where
   | fresh (r : Reader)
   | live (i : Input)
@@ -91,27 +100,17 @@ def step (n : Nat) (st : St) (line : String) : St × String :=
     | .panic => (.dead, "panic")
     | .diverge => (.dead, "hang")
   | .closed, [_] => (.closed, "ok noinput")
-  | .live i, ["next"] =>
-    match i.Next with
-    | .ok (i, .rune r) => (.live i, s!"ok r {r} | " ++ dump i)
-    | .ok (i, .err .eof) => (.live i, "ok err eof | " ++ dump i)
-    | .ok (i, .err .other) => (.live i, "ok err other | " ++ dump i)
-    | .ok (i, .invalid p) => (.live i, s!"ok err utf8 {showPos p} | " ++ dump i)
-    | .panic => (.dead, "panic")
-    | .diverge => (.dead, "hang")
-  | .live i, ["retract"] =>
-    match i.Retract with
-    | .ok i => (.live i, "ok | " ++ dump i)
-    | .panic => (.dead, "panic")
-    | .diverge => (.dead, "hang")
-  | .live i, ["lexeme"] =>
-    match i.Lexeme with
-    | .ok (i, bytes, p) => (.live i, s!"ok x{showHex bytes} {showPos p} | " ++ dump i)
-    | .panic => (.dead, "panic")
-    | .diverge => (.dead, "hang")
-  | .live i, ["skip"] =>
-    let (i, p) := i.Skip
-    (.live i, s!"ok {showPos p} | " ++ dump i)
+  | .live i, [w] =>
+    let op? : Option Op :=
+      if w = "next" then some .next else if w = "retract" then some .retract
+      else if w = "lexeme" then some .lexeme else if w = "skip" then some .skip else none
+    match op? with
+    | none => (st, "bad-op")
+    | some op =>
+      match i.step op with
+      | .ok (i, o) => (.live i, showOut o ++ " | " ++ dump i)
+      | .panic => (.dead, "panic")
+      | .diverge => (.dead, "hang")
   | st, _ => (st, "bad-op")
 
 def runOps (n : Nat) : St → List String → List String
